@@ -67,6 +67,7 @@ def refac_first(path):
     return f'{len(alarmed)} of {len(rf)} raised an alarm in some property ({", ".join(alarmed)})' if rf else 'not recorded'
 refac_first1 = refac_first(f'{V}/refactorings/EVAL-first-contact.txt')
 refac_first2 = refac_first(f'{V}/refactorings/EVAL-round2-first-contact.txt')
+refac_first3 = refac_first(f'{V}/refactorings/EVAL-round3-first-contact.txt')
 rh = parse_eval(f'{V}/refactorings/EVAL-on-head.txt')
 alarm_head = sorted(k for k, v in rh.items() if v not in ('NONE', 'n/a'))
 refac_head = (f'all {len(rh)} are silent for all 20 properties' if rh and not alarm_head else (f'{len(alarm_head)} of {len(rh)} still alarm: {", ".join(alarm_head)}' if rh else 'not recorded'))
@@ -80,7 +81,7 @@ parts.append(open(f'{V}/design/part1_head.md').read().rstrip() + '\n\n')
 parts.append(cat.rstrip() + '\n\n')
 parts.append(open(f'{V}/design/part2.md').read().rstrip() + '\n\n')
 p4 = open(f'{V}/design/part4_seeds_head.md').read()
-p4 = p4.replace('@SUMMARY@', '\n'.join(summary)).replace('@TABLE@', '\n'.join(rows)).replace('@REFAC_FIRST1@', refac_first1).replace('@REFAC_FIRST2@', refac_first2).replace('@REFAC_HEAD@', refac_head)
+p4 = p4.replace('@SUMMARY@', '\n'.join(summary)).replace('@TABLE@', '\n'.join(rows)).replace('@REFAC_FIRST1@', refac_first1).replace('@REFAC_FIRST2@', refac_first2).replace('@REFAC_FIRST3@', refac_first3).replace('@REFAC_HEAD@', refac_head)
 parts.append(p4.rstrip() + '\n\n')
 parts.append(open(f'{V}/design/part3_falsealarms.md').read().rstrip() + '\n')
 open(f'{V}/DESIGN.md', 'w').write(''.join(parts))
